@@ -264,3 +264,85 @@ func ruleArgsCodec(c *Ctx, rule string) {
 		}
 	}
 }
+
+// C08.R6 / C13.R6 — the ipinfos reported for a pod are a projection, in order, of the lookup for the FULL request
+// (the i-th entry of ByKeyAndIPRanges(key, requested ranges) is the ip owned in the i-th range).
+func ruleReportedInRequestOrder(c *Ctx, rule string) {
+	fn := c.MustFn(rule, spPkg, "(*FloatingIPPlugin).allocateIP")
+	if fn == nil {
+		return
+	}
+	looks := calls(fn, "IPAM).ByKeyAndIPRanges")
+	if len(looks) == 0 {
+		c.undecided(rule, fn, "ByKeyAndIPRanges", nil, "no lookup found")
+		return
+	}
+	isRaw := func(v ssa.Value) bool { return pathEndsWith(v, "RequestIPRange") }
+	for _, l := range looks {
+		c.ob(rule, fn, "every lookup of the pod's ips uses the full requested ranges", l, isRaw(callArgs(l)[1]) && sameParam(callArgs(l)[0], fn.Params[1]), "ByKeyAndIPRanges(key, cniArgs.RequestIPRange): entry i answers range i")
+	}
+	// the list stored into Common.IPInfos is built by one loop over a lookup result (possibly the re-read one)
+	allInstrs(fn, func(in ssa.Instruction) {
+		st, ok := in.(*ssa.Store)
+		if !ok {
+			return
+		}
+		_, p := cellPath(st.Addr)
+		if len(p) < 2 || p[len(p)-1] != "IPInfos" || p[len(p)-2] != "Common" {
+			return
+		}
+		// every element appended to the stored list is <lookup result>[i].IPInfo, i the loop index over that result
+		n, okAll := 0, true
+		allInstrs(fn, func(in2 ssa.Instruction) {
+			s2, ok := in2.(*ssa.Store)
+			if !ok || typeNameOf(s2.Val.Type()) != "IPInfo" {
+				return
+			}
+			ia, ok := s2.Addr.(*ssa.IndexAddr)
+			if !ok {
+				return
+			}
+			if _, ok := ia.X.(*ssa.Alloc); !ok {
+				return
+			}
+			n++
+			// value: load of (<elem>.IPInfo) where <elem> is a load of IndexAddr(<slice>, idx) and <slice> is a lookup result
+			fromLookup := dependsOn(s2.Val, func(x ssa.Value) bool {
+				ld, ok := x.(*ssa.UnOp)
+				if !ok {
+					return false
+				}
+				ia2, ok := ld.X.(*ssa.IndexAddr)
+				if !ok {
+					return false
+				}
+				return dependsOn(ia2.X, func(y ssa.Value) bool {
+					cl, i := callOf(y)
+					return cl != nil && i == 0 && nameMatch(calleeName(cl), "IPAM).ByKeyAndIPRanges")
+				})
+			})
+			if !fromLookup {
+				okAll = false
+			}
+		})
+		// and the stored list does not concatenate two lists: its append chain has a single append site in one loop
+		apps := 0
+		dependsOn(st.Val, func(x ssa.Value) bool {
+			if call, ok := x.(*ssa.Call); ok {
+				if b, ok := call.Call.Value.(*ssa.Builtin); ok && b.Name() == "append" && typeNameOf(elemOf(call.Type())) == "IPInfo" {
+					apps++
+				}
+			}
+			return false
+		})
+		c.ob(rule, fn, "reported ipinfos are the lookup entries in lookup order", st, okAll && n == 1 && apps == 1,
+			fmt.Sprintf("one append site of IPInfo (found %d element stores, %d appends in the chain), its element is <lookup result>[i].IPInfo", n, apps))
+	})
+}
+
+func elemOf(t types.Type) types.Type {
+	if s, ok := t.Underlying().(*types.Slice); ok {
+		return s.Elem()
+	}
+	return t
+}
